@@ -148,6 +148,16 @@ def check(run):
     for c, r in zip(cases, res):
         t, i = terms(c, r)
         allt += t; alli += i
+    # observation (not a verdict): damaged caches which still load with the SAME key value but whose certificate carries other SubjectPublicKeyInfo bytes
+    odd = []
+    for c, r in zip(cases, res):
+        raws = {}
+        for op, st in zip(c["ops"], r.get("steps") or []):
+            if st.get("r") == "ok" and st.get("key"):
+                raws.setdefault(st["key"], st.get("rawkey"))
+                if st.get("rawkey") != raws[st["key"]]:
+                    odd.append({"case": c["i"], "op": op})
+    run.cov["same_key_value_but_other_spki_bytes"] = {"count": len(odd), "examples": odd[:3]}
     flagged, tgs, errors, _ = vlib.coq_eval(run.rundir, "c08", IMPORTS, "case", allt, "judge_all", shard=300)
     run.checker_cmds.append("coqc c08_k.v (vm_compute of Judge.C08.judge_all)")
     run.oblige("case evaluation inside Coq completed", not errors, "\n".join(errors))
